@@ -28,6 +28,38 @@ CHECKS['C07'] = dict(
     note='Trusted: z3; np.random stubs return arbitrary values of the documented support; degenerate paths (coincident atoms in a propagation '
          'step => division by zero) are outside the genericity precondition and are listed, not claimed.',
     design='3/C07', technique=SYMX + '; exhaustive structural enumeration of bond graphs within the bound')
+EXM_NOTE = ('Trusted: z3 (unsat answers); SymX scalar semantics; let-abstraction steps (each replaced sub-term is constrained only by facts '
+            'proved for it on the same path: weakening, sound for unsat); instantiation of universally quantified lemmas proved in the same run; '
+            'molecules are built directly with the real classes (no file parsing). Exact real arithmetic: binary64 rounding outside the claim.')
+CHECKS['C01'] = dict(
+    text='Real ExchangeMap (with the real calcule_base inside, so collinear / axis-aligned frames are ordinary paths) on symbolic coordinates and '
+         'scale, per bond graph within the bound: nearest-anchor choice, the law map(ref)=a+s(p-a) per component and the equivalences table are '
+         'SMT obligations on every path; frames are proved orthonormal on the path and then abstracted.',
+    note=EXM_NOTE, design='3/C01', technique=SYMX + '; universal frame lemmas + let-abstraction')
+CHECKS['C02'] = dict(
+    text='(a) real calcule_base executed on an uninterpreted vector sort: rotation/translation equivariance and branch agreement from the rotation '
+         'axioms; axioms closed under composition and discharged componentwise for elementary rotations; (b) real __call__ on R.ref+t with a frame '
+         'contract stub: map(R ref+t)=R map(ref)+t for a free matrix R; (c) real code end-to-end on 1-, 2-, 3-atom references with symbolic random '
+         'draws: distance to the anchor and coordinate along the molecular axis preserved for every argument conformation.',
+    note=EXM_NOTE + ' SO(3) is reached through generators (Euler decomposition trusted).', design='3/C02',
+    technique=SYMX + '; EUF vector-level execution of calcule_base; contract stub discharged in the same check')
+CHECKS['C03'] = dict(
+    text='Real ExchangeMap built on symbolic conformation X and applied to an independent symbolic conformation Y: distance to the anchor and '
+         'mutual distances of atoms sharing an anchor scale by s (staged SMT obligations through the stored projections), locality by a second call '
+         'on a conformation that differs outside (anchor, two lowest-numbered bonded atoms) plus the variable-dependency set of the result term.',
+    note=EXM_NOTE, design='3/C03', technique=SYMX + '; state injection of stored projections; universal norm lemmas')
+CHECKS['C04'] = dict(
+    text='Inductive step from an arbitrary symbolic stale frame state (result = freshly built map, frame condition on the stored state) plus all '
+         'operation histories of length <= 2 (quick) / 3 (thorough) over {call, call on another conformation, other species, non-molecule, mutate '
+         'construction reference/target} executed on the real objects with symbolic coordinates; equality of results is decided on the terms / by SMT.',
+    note=EXM_NOTE + ' Anchors assumed non-collinear here (collinear frames are C01/C02).', design='3/C04',
+    technique=SYMX + '; inductive step over symbolic pre-state + bounded history enumeration')
+CHECKS['C08'] = dict(
+    text='Real Chi2Calculator constructed on symbolic coordinates and called on different symbolic coordinates, for every restraint list within the '
+         'bound; every path (which mobile atom is nearest to which fixed atom) is checked against an independently built z3 reference formula; the '
+         'distance matrix is abstracted to free non-negative reals (superset of all geometries) with exact-geometry re-execution for counterexamples.',
+    note='Trusted: z3; cdist stand-in (exact squared distances or order abstraction); ties between distances in one row excluded; 1.1**k enters as its exact binary64 value.',
+    design='3/C08', technique=SYMX + '; order-only abstraction of the distance matrix; differential against a reference model')
 NOT_YET = {}
 def main():
     props = [json.loads(l) for l in open(os.path.join(HERE, 'properties.jsonl'))]
